@@ -720,6 +720,15 @@ func (x *Exec) evalCall(env *Env, e *Expr) (Val, error) {
 			return nil, fmt.Errorf("anydenom(k)")
 		}
 		return Sym("any_denom_"+e.Args[0].Num.String(), SStr), nil
+	case "mrpos": // mrpos(k): position of key k in the enumeration of the current walk over a Go map value
+		id, ok := env.vars["$miterid"].(int)
+		if !ok {
+			return nil, fmt.Errorf("mrpos: no map walk in scope")
+		}
+		if err := need(1); err != nil {
+			return nil, err
+		}
+		return UF(fmt.Sprintf("mr%d_pos", id), SInt, args[0]), nil
 	case "itpos": // itpos(k0, k1, ...): position of a key in the enumeration of the current iterator
 		it, ok := env.vars["$iter"].(*IterState)
 		id, ok2 := env.vars["$iterid"].(int)
